@@ -4,9 +4,17 @@
    committer / tracers / node sets / node stores (on Trie/Ops.v, Trie/Hash.v).
    [H] is any hash function with 32-byte output; [reach H sc S ss]: the session
    state [ss] is reached by trie.New on store [S] (scheme [sc]) followed by ANY
-   history of Update / Delete / Get. *)
+   history of Update / Delete / Get / GetNode.  [reachable H S ss] (path scheme):
+   reached from the EMPTY database by any number of generations (trie.New, any
+   Update / Delete / Get / GetNode with byte keys and keys/values shorter than
+   2^32 bytes, Commit, apply, reopen).  The representation chain is Trie/Commit*.v
+   (hash nodes resolve to the decoded encoding of their subtree, untouched
+   regions of the store are exact); c06 (canonical form, insert/delete specs),
+   c08 (decode_enc) and c11 (stack-trie model) are reused by import. *)
 From Coq Require Import Permutation.
-From GV Require Import Lib.Tactics Trie.Hex Trie.Node Trie.Ops Trie.Hash Trie.OpsProofs Trie.Commit Trie.CommitProofs Trie.CommitTracer Trie.CommitReads Trie.CommitSim Trie.CommitSimDel Trie.CommitHist Trie.CommitExact Trie.Stack Trie.Generate Trie.GenerateProofs Trie.GenerateNodes Trie.CommitStack Trie.CommitEvents Trie.CommitTrace.
+From GV Require Import Lib.Tactics Trie.Hex Trie.Node Trie.Ops Trie.Hash Trie.OpsProofs Trie.Canon Trie.Commit Trie.CommitProofs Trie.CommitTracer.
+From GV Require Import Trie.CommitReads Trie.CommitSim Trie.CommitSimDel Trie.CommitHist Trie.CommitExact Trie.CommitEvents Trie.CommitTrace Trie.CommitPv Trie.CommitInv3 Trie.CommitNoStale Trie.CommitFinal.
+From GV Require Import Trie.Stack Trie.Generate Trie.GenerateProofs Trie.GenerateNodes Trie.CommitStack Trie.CommitHash.
 Local Open Scope N_scope.
 
 (* the returned root is Trie.Hash() of the in-memory trie; for a short/full root
@@ -92,15 +100,27 @@ Theorem C07_apply_pointwise : forall H S ss r ns,
 Proof. exact commit_applied_path. Qed.
 Print Assumptions C07_apply_pointwise.
 
-(* commit_reads_back (path scheme) — FULL.
-   [reachable H S ss]: the database/session state is reached from the EMPTY
-   database by any number of generations (trie.New, any Update / Delete / Get / GetNode
-   with byte keys and keys/values shorter than 2^32 bytes, Commit, apply, reopen).
-   Committing any reachable session and reopening at the returned root from the
-   updated store succeeds, and every byte key reads there exactly the value it
-   read in the in-memory trie before the commit.  Uses c06 (insert_spec,
-   delete_spec, canonical form), c08 (decode_enc) and collision freedom only
-   against the empty-root preimage. *)
+(* ======================= path scheme, every reachable session ======================= *)
+
+(* commit_exact_path — FULL: after applying the node set of ANY reachable session
+   the path store holds EXACTLY the hashed nodes of the ground trie F the session
+   represents ([gsub H true [] F q Gq]: Gq is the hashed node of F at path q), each
+   under its path with its encoding: no stale node, none missing, none wrong; and
+   the store resolves every one of them ([store_ok]) *)
+Theorem C07_commit_exact_path : forall H,
+  (forall x, length (H x) = 32%nat) ->
+  (forall e, H e = H empty_root_preimage -> e = empty_root_preimage) ->
+  forall S ss r ons,
+    reachable H S ss -> commit H ss = Some (r, ons) ->
+    exists F, sinv H S ss F /\ store_ok H (applied S ons) r F /\
+      forall q b, am_get q (applied S ons) = Some b <->
+                  exists Gq, gsub H true [] F q Gq /\ node_enc H Gq = Some b.
+Proof. exact commit_exact_path. Qed.
+Print Assumptions C07_commit_exact_path.
+
+(* commit_reads_back — FULL: reopening at the returned root from the updated store
+   succeeds and every byte key reads exactly what it read in the in-memory trie
+   before the commit *)
 Theorem C07_commit_reads_back : forall H,
   (forall x, length (H x) = 32%nat) ->
   (forall e, H e = H empty_root_preimage -> e = empty_root_preimage) ->
@@ -114,197 +134,10 @@ Theorem C07_commit_reads_back : forall H,
 Proof. exact commit_reads_back. Qed.
 Print Assumptions C07_commit_reads_back.
 
-(* the invariant behind it: every reachable session represents a canonical,
-   size-bounded ground trie F over its store *)
-Theorem C07_reachable_sinv : forall H,
-  (forall x, length (H x) = 32%nat) ->
-  (forall e, H e = H empty_root_preimage -> e = empty_root_preimage) ->
-  forall S ss, reachable H S ss -> exists F, sinv H S ss F /\ gsizes F.
-Proof. exact reachable_sinv. Qed.
-Print Assumptions C07_reachable_sinv.
-
-(* Update and Delete keep the invariant, for the ground trie updated at that key *)
-Theorem C07_update_preserves_sinv : forall H,
-  (forall x, length (H x) = 32%nat) ->
-  forall S ss F key v ss',
-    sinv H S ss F -> gsizes F -> op_ok key v ->
-    sess_update H PathScheme S ss key v = TOk ss' ->
-    exists F', sinv H S ss' F' /\ gsizes F' /\
-               lk F' (keybytes_to_hex key) = Canon.vopt v /\
-               (forall hk, hk <> keybytes_to_hex key -> lk F' hk = lk F hk).
-Proof. exact sess_update_sinv. Qed.
-Print Assumptions C07_update_preserves_sinv.
-
-(* "none missing" half of commit_exact_path, FULL: after the commit of any
-   reachable session the updated store holds every hashed node of the ground
-   trie at its path, under the returned root *)
-Theorem C07_commit_none_missing : forall H,
-  (forall x, length (H x) = 32%nat) ->
-  (forall e, H e = H empty_root_preimage -> e = empty_root_preimage) ->
-  forall S ss r ons,
-    reachable H S ss -> commit H ss = Some (r, ons) ->
-    exists F, store_ok H (applied S ons) r F.
-Proof. exact commit_none_missing. Qed.
-Print Assumptions C07_commit_none_missing.
-
-(* TARGET (DESIGN.md) commit_exact_path :
-     apply nodeset (nodes_of told) = nodes_of tnew      (path scheme)
-   PROVED for every reachable session, with F the ground trie it represents
-   ([gsub H true [] F q Gq]: Gq is the hashed node of F at path q):
-     - none missing: every hashed node of F is in the updated store at its path,
-       and the store resolves it (store_ok);
-     - none wrong: every node the commit wrote is the encoding of the hashed node of
-       F at that path;
-     - every other entry of the updated store is an entry of the OLD store that the
-       node set does not mention.
-   MISSING for equality ("no stale node"): that such an unmentioned old entry is
-   still a hashed node of F, i.e. deletion completeness — every old node that was
-   loaded and is no longer a node of F is in deletedNodes or is deleted as an
-   embedded node.  That needs the event-consistency of trie.go's insert/delete
-   (hypothesis of C07_tracer_spec) and "every loaded old node has a pre-value";
-   it is shown by the correspondence check and the Go oracle only (disk keyspace =
-   from-scratch build on every case). *)
-Theorem C07_commit_exact_path_partial : forall H,
-  (forall x, length (H x) = 32%nat) ->
-  (forall e, H e = H empty_root_preimage -> e = empty_root_preimage) ->
-  forall S ss r ns,
-    reachable H S ss -> commit H ss = Some (r, Some ns) ->
-    exists F, sinv H S ss F /\ store_ok H (apply_nodeset PathScheme ns S) r F /\
-      forall q b, am_get q (apply_nodeset PathScheme ns S) = Some b ->
-        (exists Gq, gsub H true [] F q Gq /\ node_enc H Gq = Some b) \/
-        (am_get q ns = None /\ am_get q S = Some b).
-Proof. exact commit_exact_path_partial. Qed.
-Print Assumptions C07_commit_exact_path_partial.
-
-(* commit_exact_path — FULL for a commit into the EMPTY path store (a trie built
-   from scratch by any history of guarded Update/Delete/Get/GetNode): the store
-   after applying the node set holds exactly the canonical node set of the ground
-   trie ([nodes_of H [] F], c11's definition: every node >= 32 bytes and the root,
-   each under its path) — no stale node, none missing, none wrong *)
-Theorem C07_commit_exact_path_fresh : forall H,
-  (forall x, length (H x) = 32%nat) ->
-  (forall e, H e = H empty_root_preimage -> e = empty_root_preimage) ->
-  forall ss r ns,
-    reachable H [] ss -> commit H ss = Some (r, Some ns) ->
-    exists F, sinv H [] ss F /\
-      forall q b, am_get q (apply_nodeset PathScheme ns []) = Some b <-> In (q, b) (nodes_of H [] F).
-Proof. exact commit_exact_path_fresh. Qed.
-Print Assumptions C07_commit_exact_path_fresh.
-
-(* stack-trie clause — FULL in the model: for an ascending equal-length key set the
-   nodes the streaming builder's callback receives (c11's stack-trie model and its
-   builder_emits theorem, reused by import) are, as a set, exactly the nodes a
-   regular trie holding the same content commits into an empty path store *)
-Theorem C07_stack_nodes_eq_commit : forall H,
-  (forall x, length (H x) = 32%nat) ->
-  forall ss r ns F kvs L,
-    sinv H [] ss F -> commit H ss = Some (r, Some ns) ->
-    (1 <= L)%nat ->
-    Forall (fun kv => nibbles (fst kv) /\ length (fst kv) = L /\ snd kv <> []) kvs -> hasc [] kvs ->
-    (forall hk, valid_key hk -> lk F hk = Canon.apply_ops (fun _ => None) (hops kvs) hk) ->
-    exists s em h emf,
-      hfeed H stack_new kvs = Some (s, em) /\ st_root_e H s = TOk (h, emf) /\
-      forall q b, In (q, b) (em ++ emf) <-> am_get q (apply_nodeset PathScheme ns []) = Some b.
-Proof. exact stack_nodes_eq_commit. Qed.
-Print Assumptions C07_stack_nodes_eq_commit.
-
-(* Trie.GetNode (reads through unresolved nodes, recording their pre-values) keeps
-   the session invariant *)
-Theorem C07_getnode_preserves_sinv : forall H,
-  (forall x, length (H x) = 32%nat) ->
-  forall S ss F path g ss',
-    sinv H S ss F -> sess_getnode H PathScheme S ss path = (g, ss') -> sinv H S ss' F.
-Proof. exact sess_getnode_sinv. Qed.
-Print Assumptions C07_getnode_preserves_sinv.
-
-(* the same from the session invariant alone *)
-Theorem C07_commit_reads_back_sinv : forall H,
-  (forall x, length (H x) = 32%nat) ->
-  (forall e, H e = H empty_root_preimage -> e = empty_root_preimage) ->
-  forall S ss F r ons key,
-    sinv H S ss F -> commit H ss = Some (r, ons) -> forallb byteb key = true ->
-    exists ss2,
-      open_trie H PathScheme (applied S ons) r = TOk ss2 /\
-      exists v t1 d1 ev1 t2 d2 ev2,
-        trie_get (resolve_of H PathScheme S) (s_root ss) key = TOk (v, t1, d1, ev1) /\
-        trie_get (resolve_of H PathScheme (applied S ons)) (s_root ss2) key = TOk (v, t2, d2, ev2) /\
-        v = lk F (keybytes_to_hex key).
-Proof. exact commit_reads_back_sinv. Qed.
-Print Assumptions C07_commit_reads_back_sinv.
-
-(* after the commit the updated store holds the ground trie under the returned
-   root: every hashed node of F is stored at its path with the encoding that
-   decodes to it — the premise of the next generation *)
-Theorem C07_commit_store_ok : forall H,
-  (forall x, length (H x) = 32%nat) ->
-  forall S ss F r ons,
-    sinv H S ss F -> commit H ss = Some (r, ons) -> store_ok H (applied S ons) r F.
-Proof. exact commit_store_ok. Qed.
-Print Assumptions C07_commit_store_ok.
-
-Theorem C07_open_sinv : forall H,
-  (forall x, length (H x) = 32%nat) ->
-  (forall e, H e = H empty_root_preimage -> e = empty_root_preimage) ->
-  forall S root F, store_ok H S root F ->
-    exists ss, open_trie H PathScheme S root = TOk ss /\ sinv H S ss F.
-Proof. exact open_sinv. Qed.
-Print Assumptions C07_open_sinv.
-
-Theorem C07_store_ok_empty : forall H, store_ok H [] (H empty_root_preimage) NEmpty.
-Proof. exact store_ok_empty. Qed.
-Print Assumptions C07_store_ok_empty.
-
-Theorem C07_get_preserves_sinv : forall H,
-  (forall x, length (H x) = 32%nat) ->
-  (forall e, H e = H empty_root_preimage -> e = empty_root_preimage) ->
-  forall S ss F key v ss',
-    sinv H S ss F -> forallb byteb key = true ->
-    sess_get H PathScheme S ss key = TOk (v, ss') ->
-    sinv H S ss' F /\ v = lk F (keybytes_to_hex key).
-Proof. exact sess_get_sinv. Qed.
-Print Assumptions C07_get_preserves_sinv.
-
-(* trie.go insert on a representation of G yields a representation of the result
-   of insert on G itself (hash-node resolution is transparent), for any reader R,
-   once the rebuilt paths (prefixes of the key, onInsert paths) count as dirty *)
-Theorem C07_insert_preserves_rep : forall H,
-  (forall x, length (H x) = 32%nat) ->
-  forall R dirty dirty' (delp delp' : list N -> Prop),
-    (forall q, dirty' q = false -> dirty q = false) ->
-    (forall q, delp' q -> delp q) ->
-    forall fu n p key v d n' ev f G,
-      insert R fu n p key (NValue v) = TOk (d, n', ev) ->
-      rep H R dirty delp f p n G -> wfpos G key ->
-      (d = true -> forall q, ple q (p ++ key) -> dirty' q = true) ->
-      (forall q, In (TIns q) ev -> dirty' q = true) ->
-      exists G', rep H R dirty' delp' f p n' G' /\ (d = false -> G' = G) /\
-                 (forall fu', (length key < fu')%nat ->
-                    exists ev', insert R fu' G p key (NValue v) = TOk (d, G', ev') /\ nores ev' = nores ev).
-Proof. exact insert_rep. Qed.
-Print Assumptions C07_insert_preserves_rep.
-
-(* Trie.Update with a non-empty value at session level: with the model's own dirty
-   reconstruction and tracer fold, the new session state represents F', the result
-   of running the same insert on the old ground trie F (c06's insert_spec then
-   gives canonicity and the lookup of F') *)
-Theorem C07_update_value_preserves_rep : forall H,
-  (forall x, length (H x) = 32%nat) ->
-  forall S ss F key x v ss',
-    sinv H S ss F -> forallb byteb key = true ->
-    sess_update H PathScheme S ss key (x :: v) = TOk ss' ->
-    exists F' d ev,
-      s_tr ss' = trace_evs (s_tr ss) ev /\
-      rep H (resolve_of H PathScheme S) (dirty_at ss') (delp_of (s_tr ss')) true [] (s_root ss') F' /\
-      forall fu', (length (keybytes_to_hex key) < fu')%nat ->
-        exists ev', insert (resolve_of H PathScheme S) fu' F [] (keybytes_to_hex key) (NValue (x :: v)) =
-                    TOk (d, F', ev') /\ nores ev' = nores ev.
-Proof. exact sess_insert_rep. Qed.
-Print Assumptions C07_update_value_preserves_rep.
-
-(* opTracer, UNCONDITIONAL for every reachable session (event consistency of
-   trie.go's insert/delete is proved: C07_insert_events / C07_delete_events):
-   with F0 the ground trie the store holds (the trie at trie.New) and F the ground
-   trie the session represents, [gpos [] G q] = G has a short/full node at path q:
+(* the opTracer of every reachable session, UNCONDITIONALLY (event consistency of
+   trie.go's insert/delete is proved: C07_insert_events / C07_delete_events): with
+   F0 the ground trie the store holds (the trie at trie.New) and F the ground trie
+   the session represents, [gpos [] G q] = G has a short/full node at path q:
      deletes      = node paths of F0 that are no node paths of F,
      inserts      = node paths of F that are no node paths of F0,
      deletedNodes = the deletes whose node was read from the store *)
@@ -321,11 +154,118 @@ Theorem C07_tracer_reachable : forall H,
 Proof. exact tracer_reachable. Qed.
 Print Assumptions C07_tracer_reachable.
 
+(* pre-value coverage: every in-memory node path holding a stored node, and every
+   stored node path the ground trie no longer has, carries a recorded pre-value *)
+Theorem C07_prevalue_coverage : forall H,
+  (forall x, length (H x) = 32%nat) ->
+  (forall e, H e = H empty_root_preimage -> e = empty_root_preimage) ->
+  forall S ss, reachable H S ss ->
+    exists F, sinv H S ss F /\
+      (forall a, stored (resolve_of H PathScheme S) a -> gpos [] (s_root ss) a -> pvd (s_tr ss) a) /\
+      (forall a, stored (resolve_of H PathScheme S) a -> ~ gpos [] F a -> pvd (s_tr ss) a).
+Proof. exact prevalue_coverage. Qed.
+Print Assumptions C07_prevalue_coverage.
+
+(* the complete invariant behind these: the store holds exactly F0 (store_ok with
+   region exactness, raw entries), the session represents F with the tracer,
+   pre-value and size invariants *)
+Theorem C07_reachable_ginv : forall H,
+  (forall x, length (H x) = 32%nat) ->
+  (forall e, H e = H empty_root_preimage -> e = empty_root_preimage) ->
+  forall S ss, reachable H S ss -> exists F0 F root0, ginv H S ss F0 F root0.
+Proof. exact reachable_ginv. Qed.
+Print Assumptions C07_reachable_ginv.
+
+(* static no-stale lemma: from the invariant, whatever the updated store resolves is
+   a hashed node of the ground trie *)
+Theorem C07_commit_no_stale : forall H,
+  (forall x, length (H x) = 32%nat) ->
+  forall S ss F0 F root0 r ns,
+    sinv3 H S ss F0 F -> store_ok H S root0 F0 -> pv_ne (s_tr ss) ->
+    commit H ss = Some (r, Some ns) ->
+    exactb H (resolve_of H PathScheme (apply_nodeset PathScheme ns S)) true [] F.
+Proof. exact commit_no_stale. Qed.
+Print Assumptions C07_commit_no_stale.
+
+(* Update / Delete keep the invariant, for the ground trie updated at that key *)
+Theorem C07_update_preserves_sinv3 : forall H,
+  (forall x, length (H x) = 32%nat) ->
+  forall S ss F0 F key v ss',
+    sinv3 H S ss F0 F -> op_ok key v ->
+    sess_update H PathScheme S ss key v = TOk ss' ->
+    exists F', sinv3 H S ss' F0 F' /\
+               lk F' (keybytes_to_hex key) = vopt v /\
+               (forall hk, hk <> keybytes_to_hex key -> lk F' hk = lk F hk).
+Proof. exact sess_update_sinv3. Qed.
+Print Assumptions C07_update_preserves_sinv3.
+
+Theorem C07_get_preserves_sinv3 : forall H,
+  (forall x, length (H x) = 32%nat) ->
+  (forall e, H e = H empty_root_preimage -> e = empty_root_preimage) ->
+  forall S ss F0 F key v ss',
+    sinv3 H S ss F0 F -> forallb byteb key = true ->
+    sess_get H PathScheme S ss key = TOk (v, ss') ->
+    sinv3 H S ss' F0 F /\ v = lk F (keybytes_to_hex key).
+Proof. exact sess_get_sinv3. Qed.
+Print Assumptions C07_get_preserves_sinv3.
+
+Theorem C07_getnode_preserves_sinv3 : forall H,
+  (forall x, length (H x) = 32%nat) ->
+  forall S ss F0 F path g ss',
+    sinv3 H S ss F0 F -> sess_getnode H PathScheme S ss path = (g, ss') -> sinv3 H S ss' F0 F.
+Proof. exact sess_getnode_sinv3. Qed.
+Print Assumptions C07_getnode_preserves_sinv3.
+
+Theorem C07_open_sinv3 : forall H,
+  (forall x, length (H x) = 32%nat) ->
+  (forall e, H e = H empty_root_preimage -> e = empty_root_preimage) ->
+  forall S root F, store_ok H S root F -> gsizes F ->
+    exists ss, open_trie H PathScheme S root = TOk ss /\ sinv3 H S ss F F.
+Proof. exact open_sinv3. Qed.
+Print Assumptions C07_open_sinv3.
+
+Theorem C07_store_ok_empty : forall H, store_ok H [] (H empty_root_preimage) NEmpty.
+Proof. exact store_ok_empty. Qed.
+Print Assumptions C07_store_ok_empty.
+
+(* trie.go insert on a representation of G yields a representation of insert on G
+   itself (hash-node resolution is transparent) and both runs emit the same opTracer
+   events *)
+Theorem C07_insert_preserves_rep : forall H,
+  (forall x, length (H x) = 32%nat) ->
+  forall R dirty dirty' (delp delp' : list N -> Prop),
+    (forall q, dirty' q = false -> dirty q = false) ->
+    (forall q, delp' q -> delp q) ->
+    forall fu n p key v d n' ev f G,
+      insert R fu n p key (NValue v) = TOk (d, n', ev) ->
+      rep H R dirty delp f p n G -> wfpos G key ->
+      (d = true -> forall q, ple q (p ++ key) -> dirty' q = true) ->
+      (forall q, In (TIns q) ev -> dirty' q = true) ->
+      exists G', rep H R dirty' delp' f p n' G' /\ (d = false -> G' = G) /\
+                 (forall fu', (length key < fu')%nat ->
+                    exists ev', insert R fu' G p key (NValue v) = TOk (d, G', ev') /\ nores ev' = nores ev).
+Proof. exact insert_rep. Qed.
+Print Assumptions C07_insert_preserves_rep.
+
+(* the same for delete: branch collapse with resolution of the remaining child,
+   short-node merging, growing deletion set ([dp_ok], [del_concl]) *)
+Theorem C07_delete_preserves_rep : forall H,
+  (forall x, length (H x) = 32%nat) ->
+  forall R dirty dirty' (delp delp' : list N -> Prop),
+    (forall q, dirty' q = false -> dirty q = false) ->
+    forall fu n p key d n' ev f G,
+      delete R fu n p key = TOk (d, n', ev) ->
+      rep H R dirty delp f p n G -> wfpos G key ->
+      dp_ok delp delp' p ev d ->
+      (d = true -> forall q, ple q (p ++ key) -> dirty' q = true) ->
+      del_concl H R dirty' delp' f p key G d n' ev.
+Proof. exact delete_rep. Qed.
+Print Assumptions C07_delete_preserves_rep.
+
 (* event consistency of trie.go's insert / delete on ground tries: the events are
    at paths below the call path, every onInsert is at a path holding no node, every
    onDelete at a path holding one, and afterwards the node paths are exactly those
-   of the result ([econs]); the runs on partially loaded tries emit the same
-   opTracer events (C07_insert_preserves_rep, nores) *)
+   of the result ([econs]) *)
 Theorem C07_insert_events : forall R fu G p key v d G' ev,
   insert R fu G p key (NValue v) = TOk (d, G', ev) -> wfpos G key ->
   econs p G G' ev /\ (d = false -> ev = []).
@@ -337,6 +277,73 @@ Theorem C07_delete_events : forall R fu G p key d G' ev,
   econs p G G' ev /\ (d = false -> ev = []).
 Proof. exact delete_econs. Qed.
 Print Assumptions C07_delete_events.
+
+(* ======================= hash scheme ======================= *)
+
+(* commit_reads_back for the HASH scheme, over every multi-generation hash-scheme
+   history ([hreachable]: trie.New, guarded Update / Delete / Get / GetNode, Commit, apply
+   (additions by hash, deletions ignored), reopen), under collision freedom on node
+   encodings ([PB a]: a is the encoding of a well-formed node): reopening at the
+   returned root from the updated hash store succeeds and every byte key reads what
+   it read in the in-memory trie before the commit.  Proved by coupling with the
+   path-scheme history of the same operations (C07_hash_coupling). *)
+Theorem C07_commit_reads_back_hash : forall H,
+  (forall x, length (H x) = 32%nat) ->
+  (forall e, H e = H empty_root_preimage -> e = empty_root_preimage) ->
+  (forall a b, PB H a -> PB H b -> H a = H b -> a = b) ->
+  forall Sh ss r ons key,
+    hreachable H Sh ss -> commit H ss = Some (r, ons) -> forallb byteb key = true ->
+    exists ss2,
+      open_trie H HashScheme (applied_h Sh ons) r = TOk ss2 /\
+      exists v t1 d1 ev1 t2 d2 ev2,
+        trie_get (resolve_of H HashScheme Sh) (s_root ss) key = TOk (v, t1, d1, ev1) /\
+        trie_get (resolve_of H HashScheme (applied_h Sh ons)) (s_root ss2) key = TOk (v, t2, d2, ev2).
+Proof. exact commit_reads_back_hash. Qed.
+Print Assumptions C07_commit_reads_back_hash.
+
+(* every hash-scheme history is a path-scheme history with the same session states,
+   whose path store is contained (blob by hash) in the hash store *)
+Theorem C07_hash_coupling : forall H,
+  (forall x, length (H x) = 32%nat) ->
+  (forall e, H e = H empty_root_preimage -> e = empty_root_preimage) ->
+  (forall a b, PB H a -> PB H b -> H a = H b -> a = b) ->
+  forall Sh ss, hreachable H Sh ss -> exists Sp, reachable H Sp ss /\ ext_st H Sp Sh.
+Proof. exact hash_coupling. Qed.
+Print Assumptions C07_hash_coupling.
+
+(* ======================= stack-trie clause ======================= *)
+
+(* the store after any reachable commit is exactly c11's canonical node set
+   [nodes_of H [] F] (every node >= 32 bytes and the root, each under its path) *)
+Theorem C07_store_is_nodes_of : forall H,
+  (forall x, length (H x) = 32%nat) ->
+  (forall e, H e = H empty_root_preimage -> e = empty_root_preimage) ->
+  forall S ss r ons,
+    reachable H S ss -> commit H ss = Some (r, ons) ->
+    exists F, sinv H S ss F /\
+      forall q b, am_get q (applied S ons) = Some b <-> In (q, b) (nodes_of H [] F).
+Proof. exact store_is_nodes_of. Qed.
+Print Assumptions C07_store_is_nodes_of.
+
+(* for an ascending equal-length key set with the same content as the committed
+   trie F, the nodes the streaming builder's callback receives (c11's stack-trie
+   model and builder_emits theorem, reused by import) are exactly the nodes the
+   path store holds after the commit — for a trie built from scratch: the node set
+   the regular trie commits *)
+Theorem C07_stack_nodes_eq_commit : forall H,
+  (forall x, length (H x) = 32%nat) ->
+  (forall e, H e = H empty_root_preimage -> e = empty_root_preimage) ->
+  forall S ss r ons,
+    reachable H S ss -> commit H ss = Some (r, ons) ->
+    exists F, sinv H S ss F /\
+      forall kvs L, (1 <= L)%nat ->
+        Forall (fun kv => nibbles (fst kv) /\ length (fst kv) = L /\ snd kv <> []) kvs -> hasc [] kvs ->
+        (forall hk, valid_key hk -> lk F hk = apply_ops (fun _ => None) (hops kvs) hk) ->
+        exists s em h emf,
+          hfeed H stack_new kvs = Some (s, em) /\ st_root_e H s = TOk (h, emf) /\
+          forall q b, In (q, b) (em ++ emf) <-> am_get q (applied S ons) = Some b.
+Proof. exact stack_nodes_eq_commit. Qed.
+Print Assumptions C07_stack_nodes_eq_commit.
 
 (* the hypotheses are met: a two-generation history over a path-scheme store whose
    second commit returns deletions with previous values, and whose events are
